@@ -263,7 +263,7 @@ def check_fit_input(coordinates, data, weights, unpack=True):
     return coordinates, data, weights
 
 
-def n_1d_arrays(arrays, n):
+def n_1d_arrays(arrays, n, floating=False):
     """
     Get the first n elements from a tuple/list, convert to arrays, and ravel.
 
@@ -277,6 +277,11 @@ def n_1d_arrays(arrays, n):
         array (including numpy arrays).
     n : int
         How many arrays to return.
+    floating : bool
+        If True, arrays that don't have a floating point type (integers,
+        booleans) are converted to float64. Use this for coordinates that will
+        be subtracted, squared or raised to powers so that the operations
+        aren't done in (overflowing or low precision) integer arithmetic.
 
     Returns
     -------
@@ -292,4 +297,9 @@ def n_1d_arrays(arrays, n):
     (array([0, 1, 2, 3]), array([0, 1, 2, 3]))
 
     """
-    return tuple(np.ravel(np.atleast_1d(i)) for i in arrays[:n])
+    arrays = tuple(np.ravel(np.atleast_1d(i)) for i in arrays[:n])
+    if floating:
+        arrays = tuple(
+            i if i.dtype.kind == "f" else i.astype("float64") for i in arrays
+        )
+    return arrays
